@@ -117,6 +117,7 @@ type session struct {
 	cfg   Config
 	vm     *otto.Otto
 	lines  []*Line
+	pre    []string
 	panics []string
 }
 
@@ -142,10 +143,15 @@ func open(cfg Config, lines []*Line) (s *session, err error) {
 			return nil, fmt.Errorf("mutation %q: %v", cfg.Mutate, err)
 		}
 	}
+	// the global names that exist before the harness adds its own
+	var pre []string
+	if v, err := vm.Run("Object.getOwnPropertyNames(this).join(',')"); err == nil {
+		pre = strings.Split(v.String(), ",")
+	}
 	if err := install(vm); err != nil {
 		return nil, err
 	}
-	s = &session{cfg: cfg, vm: vm, lines: lines}
+	s = &session{cfg: cfg, vm: vm, lines: lines, pre: pre}
 	for _, l := range lines {
 		if l.K != "obj" {
 			continue
